@@ -271,6 +271,17 @@ func runC18(res *lp.Result) {
 			}})
 		}
 	}
+	// segments of several KiB, incompressible ones first (they travel as they are) and compressible ones after them — the sizes and the
+	// branches small test payloads never reach
+	for g := 0; g < goroutines; g++ {
+		r := lp.NewRng(*seed*77 + uint64(g))
+		for _, sc := range segCodecs {
+			jobs[g] = append(jobs[g], segmentJob(sc.codec, sc.name, r.Bytes(8192+g), true))
+			jobs[g] = append(jobs[g], segmentJob(sc.codec, sc.name, r.Bytes(5000+g), false))
+			jobs[g] = append(jobs[g], segmentJob(sc.codec, sc.name, bytes.Repeat([]byte(fmt.Sprintf("row %d of goroutine %d;", g*31, g)), 900), true))
+			jobs[g] = append(jobs[g], segmentJob(sc.codec, sc.name, bytes.Repeat([]byte(fmt.Sprintf("another row %d;", g)), 1500), false))
+		}
+	}
 	// big bodies: every goroutine compresses and restores several MiB through the shared compressors, into a destination that is slow
 	// to take them, so that the calls overlap in time — what one call may use must not depend on what the others hold at that moment
 	for g := 0; g < goroutines && g < 5; g++ {
